@@ -83,6 +83,17 @@ def formPost (typ msg loc rs : Bytes) : Option Bytes :=
 
 /-! ### HTTP-Redirect and the artifact URL -/
 
+/-- zlib's raw DEFLATE as a parameter: `deflate b = zlib.compress(b)[2:-4]`,
+    `inflate b = zlib.decompress(b, -15)` (`none` = `zlib.error`), with the laws the theorems use
+    as fields (hypotheses): inflating a deflated string gives it back, the output is a byte string,
+    and it is never empty (a DEFLATE stream has at least one block). -/
+structure Deflate where
+  deflate : Bytes → Bytes
+  inflate : Bytes → Option Bytes
+  law : ∀ b, IsBytes b → inflate (deflate b) = some b
+  isBytes : ∀ b, IsBytes b → IsBytes (deflate b)
+  nonempty : ∀ b, deflate b ≠ []
+
 /-- `destination + glue + query`: `&` when `urlparse(destination).query` is non-empty, else `?`. -/
 def glueUrl (netlocOk : Bool) (loc query : Bytes) : Option Bytes :=
   if netlocOk then some (loc ++ (if locQueryTruthy loc then 38 else 63) :: query) else none
